@@ -538,3 +538,9 @@ M('seed4-C01-reset-guard-msg_balanced', ['C01', 'C02', 'C03', 'C07'], Z, "      
 M('seed4-C04-required-consumer-skips-gate', ['C04'], Z, "                elif balance:  # if doing this then only one bound output endpoint needs to have all clients requested in order to send to that endpoint only", "                elif client_id in self.outs_required:\n                    pass\n\n                elif balance:  # if doing this then only one bound output endpoint needs to have all clients requested in order to send to that endpoint only", ['C04.R2'])
 M('new_recv-drops-first-message', ['C01'], Z, "            elif topic:\n                recvd = {**recvd_new, topic: msg}\n            else:\n                recvd = recvd_new.copy()", "            elif not topic:\n                recvd = {**recvd_new, topic: msg}\n            else:\n                recvd = recvd_new.copy()", ['C01.R11', 'C01.R8'])
 M('process_msg-equal-id-no-init', ['C01'], Z, "                        if (recvd := sender.recvd) is None:\n                            recvd = sender.recvd = sender.init_recvd(msg, topic, topics)\n\n                        elif topic:", "                        if (recvd := sender.recvd) is None:\n                            recvd = sender.recvd = {}\n\n                        elif topic:", ['C01.R11'])
+M('completion-ephemeral-blocks', ['C01', 'C05'], Z, "                    elif not s.ephemeral and not balance:\n                        got_all_synced = False", "                    elif not balance:\n                        got_all_synced = False", ['C01.R6', 'C05.R4'])
+M('completion-balanced-blocks', ['C01', 'C07'], Z, "                    elif not s.ephemeral and not balance:\n                        got_all_synced = False", "                    elif not s.ephemeral:\n                        got_all_synced = False", ['C01.R6', 'C07.R8'])
+M('wire-xtra-not-sent', ['C09'], Z, "                env['xtra'] = msg[0]\n", "", ['C09.R6'])
+M('wire-frames-from-index-3', ['C09'], Z, "                    msg        = [env.get('xtra'), *msg[2:]]", "                    msg        = [env.get('xtra'), *msg[3:]]", ['C09.R6'])
+M('wire-publisher-drops-second-frame', ['C09'], Z, "json_dumps(env, separators=(',', ':')).encode(), *msg[1:]]", "json_dumps(env, separators=(',', ':')).encode(), *msg[2:]]", ['C09.R6'])
+M('wire-xtra-key-mismatch', ['C09'], Z, "                    msg        = [env.get('xtra'), *msg[2:]]", "                    msg        = [env.get('extra'), *msg[2:]]", ['C09.R6'])
